@@ -60,6 +60,15 @@ PROPS = {
         'level': 'other',
         'explanation': 'dependencies() of every node kind are under contract (proved); topological_sort is decided by the bounded stand-in only',
     },
+    'C13': {
+        'modules': ['contracts.c14_expr', 'contracts.c13_term'],
+        'standins': ['prophyc_robust', 'isar_order'],
+        'trusted': PYVC_TRUST + ['ply / ElementTree / argparse internals (assumed contracts)'],
+        'assumptions': ['exception classes the property does not list (xml ParseError, the bare Exception of patch.py, OSError) are reported as notes'],
+        'level': 'other',
+        'explanation': 'termination variants and raises-clauses are proved for the functions under contract; the whole-program effect '
+                       '(nothing but ProphycError leaves main) is decided by the bounded stand-in only',
+    },
     'C19': {
         'modules': ['contracts.c01_encode', 'contracts.c01_arrays', 'contracts.c01_wrappers', 'contracts.c04_runtime'],
         'standins': ['py_codec'],
